@@ -93,6 +93,8 @@ def _comprehension_vars(node) -> set:
 
 def _has_return(stmts) -> bool:
     for st in stmts:
+        if isinstance(st, (ast.FunctionDef, ast.AsyncFunctionDef, ast.ClassDef)):
+            continue
         for n in [st] + list(walk_shallow(st)):
             if isinstance(n, ast.Return):
                 return True
@@ -157,12 +159,12 @@ def as_expression(body: List[ast.stmt]) -> Optional[ast.expr]:
     return None
 
 
-def inlinable(ctx, f: FunctionInfo, call: ast.Call, stack=()) -> Optional[FunctionInfo]:
+def inlinable(ctx, f: FunctionInfo, call: ast.Call, stack=(), keep=()) -> Optional[FunctionInfo]:
     targets, how = ctx.cg.resolve_call(f, call)
     if len(targets) != 1 or how in ("by-name", "constructor", "external") or how.startswith("unresolved"):
         return None
     g = targets[0]
-    if g in stack or g is f or g == f or not g.name.startswith("_") or g.name.startswith("__"):
+    if g in stack or g is f or g == f or not g.name.startswith("_") or g.name.startswith("__") or g.name in keep:
         return None
     if g.is_property or g.is_classmethod or g.parent is not None:
         return None
@@ -217,8 +219,8 @@ class _Renamer(ast.NodeTransformer):
 
 
 class _Inliner:
-    def __init__(self, ctx, f, depth, stack):
-        self.ctx, self.f, self.depth, self.stack = ctx, f, depth, stack
+    def __init__(self, ctx, f, depth, stack, keep=()):
+        self.ctx, self.f, self.depth, self.stack, self.keep = ctx, f, depth, stack, tuple(keep)
         self.k = 0
         self.helpers: List[str] = []
 
@@ -256,7 +258,7 @@ class _Inliner:
         if binding is None:
             return None
         # helper body, itself inlined first
-        gnode = inlined(self.ctx, g, depth=self.depth - 1, _stack=self.stack + (self.f,)).node if self.depth > 1 else g.node
+        gnode = inlined(self.ctx, g, depth=self.depth - 1, _stack=self.stack + (self.f,), keep=self.keep).node if self.depth > 1 else g.node
         body = clone(_docless(gnode.body))
         self.k += 1
         tag = f"__{g.name.strip('_')}_{self.k}"
@@ -278,7 +280,8 @@ class _Inliner:
                 pre.append(asg)
         rn = _Renamer(rename, subst)
         body = [rn.visit(s) for s in body]
-        n_rets = sum(1 for b in body for n in [b] + list(walk_shallow(b)) if isinstance(n, ast.Return))
+        n_rets = sum(1 for b in body if not isinstance(b, (ast.FunctionDef, ast.AsyncFunctionDef, ast.ClassDef))
+                     for n in [b] + list(walk_shallow(b)) if isinstance(n, ast.Return))
         if n_rets > 1 or (n_rets == 1 and not isinstance(body[-1], ast.Return)):
             res = "result" + tag
             body = eliminate_returns(body, res)
@@ -327,7 +330,7 @@ class _Inliner:
         class T(ast.NodeTransformer):
             def visit_Call(self, c):
                 self.generic_visit(c)
-                g = inlinable(me.ctx, me.f, c, me.stack)
+                g = inlinable(me.ctx, me.f, c, me.stack, me.keep)
                 if g is None:
                     return c
                 rexpr = as_expression(_docless(g.node.body))
@@ -376,7 +379,7 @@ class _Inliner:
                 if not (isinstance(ost, ast.Assign) and len(ost.targets) != 1):
                     call = ost.value
             if call is not None:
-                g = inlinable(self.ctx, self.f, call, self.stack)
+                g = inlinable(self.ctx, self.f, call, self.stack, self.keep)
                 if g is not None:
                     sp = self.splice(st, st.value, g)
                     if sp is not None:
@@ -394,13 +397,14 @@ class _Inliner:
         return out
 
 
-def inlined(ctx, f: FunctionInfo, depth: int = 3, _stack=()) -> FunctionInfo:
+def inlined(ctx, f: FunctionInfo, depth: int = 3, _stack=(), keep=()) -> FunctionInfo:
+    """`keep`: names of helpers that must stay calls (anchors a rule wants to see)."""
     cache = ctx.__dict__.setdefault("_inlined_cache", {})
-    key = (f.qual, depth)
+    key = (f.qual, depth, tuple(sorted(keep)))
     if key in cache and not isinstance(f, InlinedFunction):
         return cache[key]
     node = clone(f.node)
-    inl = _Inliner(ctx, f, depth, _stack)
+    inl = _Inliner(ctx, f, depth, _stack, keep)
     node.body = inl.block(node.body, f.node.body)
     ast.fix_missing_locations(node)
     set_parents(node)
